@@ -336,7 +336,7 @@ async def script(loop, ctx):
 
         pack_low = (k % 3 == 1)
         if pack_low:
-            set_pack_limit(3)  # the periodic check packs the folder (message files renumbered 1..N) whenever it has holes
+            set_pack_limit(3, rig.server)  # the periodic check packs the folder (message files renumbered 1..N) whenever it has holes
 
         async def refresh():
             rf = await s.cmd("FETCH 1:* (UID FLAGS RFC822.SIZE INTERNALDATE)") if truths else None
